@@ -28,7 +28,7 @@ inline TCircuit genCircuit(SplitMix &g, const GenOpts &o) {
     if (o.splitrows && g.coin(25) && W >= 8 * sc) {
       long long m = g.uni(2, W / sc - 4) * sc, gap = g.uni(0, 2) * sc;
       t.rows.push_back({x0, x0 + m, y, y + rh, ro});
-      if (x0 + m + gap < x0 + W) t.rows.push_back({x0 + m + gap, x0 + W, y, y + rh, (pattern == 2 && g.coin(30)) ? (long long)(int[]){0, 1, 4, 5}[g.uni(0, 3)] : ro});
+      if (x0 + m + gap < x0 + W) t.rows.push_back({x0 + m + gap, x0 + W, y, y + rh, ro /* one orientation per y: segments of one y are pieces of one physical row */});
     } else t.rows.push_back({x0, x0 + W, y, y + rh, ro});
     y += rh; if (g.coin(15)) y += rh * g.uni(1, 2);
   }
